@@ -37,6 +37,7 @@ var Metas = map[string]Meta{
 	"C11": {Category: "exploration", Rule: "one run = producer task (Writer history with Flush points, stdlib or fastgo encoder) and consumer task (fastgo Reader) on a gated pipe under a seeded scheduler; the driver releases one flush point at a time and evaluates at every quiescence whether all data before that point was returned; afterwards the source stalls, fails or delivers unrelated bytes; non-trivial = at least two flush points; distinct = distinct schedule signature (incl. task switches)"},
 	"C13": {Category: "exploration", CrossLevel: true, Rule: "one run = 1..3 earlier streams (read partially, to EOF or into an error), Reset, next input (valid, back-references before its start, malformed), compared with a fresh Reader; non-trivial = at least one earlier stream; distinct = distinct schedule signature"},
 	"C15": {Category: "fault_enumeration", Rule: "for each sampled valid stream/container the source fails after k bytes for every k in 0..len (thorough, and quick when len <= 512; otherwise first/last 8 and a stratified sample), error alone or with the last bytes; one evaluation = one (stream, k) run; non-trivial = the injected error was actually returned by the source; distinct = distinct schedule signature"},
+	"C17": {Category: "exploration", Rule: "deterministic pass: one run = 2..8 independent Writer/Reader tasks switched by the seeded scheduler at every seam call, each compared with its solo run; non-trivial = more task switches than tasks; distinct = distinct schedule signature. Free-running pass (race-detector build): the same kind of task sets started behind one barrier with no synchronisation at GOMAXPROCS 2/4/16, outputs compared with solo runs, race reports collected (this pass does not control the interleaving and says so)"},
 	"C18": {Category: "exploration", CrossLevel: true, Rule: "one run = one level-independent input (valid, truncated or malformed; flate/gzip/zlib) read with the same source/Read schedule in worker processes forced to each runnable level; the parent compares (output bytes, error kind) across levels; non-trivial = input longer than the assembly loop's 24-byte slop; distinct = distinct schedule signature"},
 	"C19": {Category: "exploration", Rule: "one run = one Writer history with data built around the window edge; non-trivial = the output contains matches and the input is longer than the window; distinct = distinct schedule signature"},
 }
